@@ -476,10 +476,14 @@ impl TypeContext {
 /// functions which need to look up IDs for structs. It does nothing fancy and
 /// is only ever used when constructing a [`TypeContext`].
 pub(super) struct LookupId<'ast> {
-    out_struct_map: HashMap<&'ast ast::Struct, OutStructId>,
-    struct_map: HashMap<&'ast ast::Struct, StructId>,
-    opaque_map: HashMap<&'ast ast::OpaqueType, OpaqueId>,
-    enum_map: HashMap<&'ast ast::Enum, EnumId>,
+    // Keyed by the identity of the AST node, not by its value: two structurally identical
+    // definitions in different bridge modules (say, one `Options` struct per namespace) are different types.
+    _ast: core::marker::PhantomData<&'ast ast::Struct>,
+    out_struct_map: HashMap<*const ast::Struct, OutStructId>,
+    struct_map: HashMap<*const ast::Struct, StructId>,
+    opaque_map: HashMap<*const ast::OpaqueType, OpaqueId>,
+    enum_map: HashMap<*const ast::Enum, EnumId>,
+    // (trait paths resolve to a copy of the AST node, so traits stay keyed by value)
     trait_map: HashMap<&'ast ast::Trait, TraitId>,
 }
 
@@ -493,25 +497,26 @@ impl<'ast> LookupId<'ast> {
         traits: &[ItemAndInfo<'ast, ast::Trait>],
     ) -> Self {
         Self {
+            _ast: core::marker::PhantomData,
             out_struct_map: out_structs
                 .iter()
                 .enumerate()
-                .map(|(index, item)| (item.item, OutStructId(index)))
+                .map(|(index, item)| (item.item as *const _, OutStructId(index)))
                 .collect(),
             struct_map: structs
                 .iter()
                 .enumerate()
-                .map(|(index, item)| (item.item, StructId(index)))
+                .map(|(index, item)| (item.item as *const _, StructId(index)))
                 .collect(),
             opaque_map: opaques
                 .iter()
                 .enumerate()
-                .map(|(index, item)| (item.item, OpaqueId(index)))
+                .map(|(index, item)| (item.item as *const _, OpaqueId(index)))
                 .collect(),
             enum_map: enums
                 .iter()
                 .enumerate()
-                .map(|(index, item)| (item.item, EnumId(index)))
+                .map(|(index, item)| (item.item as *const _, EnumId(index)))
                 .collect(),
             trait_map: traits
                 .iter()
@@ -522,19 +527,19 @@ impl<'ast> LookupId<'ast> {
     }
 
     pub(super) fn resolve_out_struct(&self, strct: &ast::Struct) -> Option<OutStructId> {
-        self.out_struct_map.get(strct).copied()
+        self.out_struct_map.get(&(strct as *const _)).copied()
     }
 
     pub(super) fn resolve_struct(&self, strct: &ast::Struct) -> Option<StructId> {
-        self.struct_map.get(strct).copied()
+        self.struct_map.get(&(strct as *const _)).copied()
     }
 
     pub(super) fn resolve_opaque(&self, opaque: &ast::OpaqueType) -> Option<OpaqueId> {
-        self.opaque_map.get(opaque).copied()
+        self.opaque_map.get(&(opaque as *const _)).copied()
     }
 
     pub(super) fn resolve_enum(&self, enm: &ast::Enum) -> Option<EnumId> {
-        self.enum_map.get(enm).copied()
+        self.enum_map.get(&(enm as *const _)).copied()
     }
 
     pub(super) fn resolve_trait(&self, trt: &ast::Trait) -> Option<TraitId> {
